@@ -21,6 +21,9 @@ struct vp_MM {
 };
 
 struct vp_S { int m; };
+struct vp_B1 { unsigned char b[1]; };
+struct vp_B9 { unsigned char b[9]; };
+struct vp_B17 { unsigned char b[17]; };
 
 struct vp_D { int v = 0; virtual ~vp_D() = default; };
 
@@ -81,6 +84,9 @@ int vp_use(int x, char const* str, int* ip)
   trompeloeil::print(os, ip);
   trompeloeil::print(os, nullptr);
   trompeloeil::print(os, vp_S{1});
+  trompeloeil::print(os, vp_B1{});
+  trompeloeil::print(os, vp_B9{});
+  trompeloeil::print(os, vp_B17{});
   return r;
 }
 
